@@ -43,9 +43,16 @@ def make_case(r, g, n_geos, cls=None, elig_mode=None, focus=None, allow=None, id
       rows = dict(rows)
       rows['ZZextra'] = r.choice(['x_fixed', 'cx', 'tx', 'ctx'])
       extra['extra_geo'] = 'ZZextra'
+      if len(rows) > 3 and r.random() < 0.4:    # ... and at the same time omits a geo that is in the data
+        drop = r.choice(sorted(k for k in rows if k != 'ZZextra'))
+        rows = {k: v for k, v in rows.items() if k != drop}
+        extra['subset_dropped'] = drop
   kw = gen.gen_params(r, panel, rows, focus=focus,
                       allow=allow or ('size', 'ratio', 'volume', 'share', 'budget', 'ngeos'))
   frame = gen.panel_frame(panel, r, shuffle=True)
+  if r.random() < 0.25:
+    # an unrelated extra column with missing values (e.g. spend not reported for some geo-days)
+    frame['cost'] = [float('nan') if r.random() < 0.3 else 1.0 for _ in range(len(frame))]
   case = {'panel': panel, 'elig_rows': rows, 'params': kw, 'frame': frame, 'extra': extra,
           'elig_index_keyed': r.random() < 0.3, 'elig_seed': r.randrange(1 << 30),
           'preset_geo_index': r.random() < 0.2}
